@@ -244,6 +244,18 @@ Theorem C20_model_is_source_inter_chain_mse_variance : forall m P o ch nm e,
 Proof. exact src_ev_inter_chain_is_model. Qed.
 Print Assumptions C20_model_is_source_inter_chain_mse_variance.
 
+(* ModelEvaluation.__init__ = the model's constructor: the objects of the hypotheses above are exactly what the translated
+   constructor returns (dtype guards: true of the arrays the wire carries) *)
+Theorem C20_model_is_source_init : forall (self : evaluation) (ncols : nat) P o ch nm,
+  src_ev_init self ncols P o ch nm = mk_eval ncols P o ch nm.
+Proof. exact src_ev_init_is_model. Qed.
+Print Assumptions C20_model_is_source_init.
+
+Theorem C20_model_is_source_mean_predictions : forall m P o ch nm e,
+  mk_eval m P o ch nm = Ok e -> src_ev_mean_predictions e = ev_mean_predictions e.
+Proof. exact src_ev_mean_predictions_is_model. Qed.
+Print Assumptions C20_model_is_source_mean_predictions.
+
 (* models/main.py predict_viability_avg and retrospective.py calculate_mse (Generated/SrcMetrics.v): the thetas are the
    list of the prediction vectors they give on the screen, the observed screen is its observations.  No side condition. *)
 Theorem C20_model_is_source_predict_viability_avg : forall (size : nat) (pt : list (list Qc)),
